@@ -891,7 +891,12 @@ class LazyGen:
             return N(r.choice(["ag1", "ag2"])), "num"
         return r.choice([(N("l1"), "num"), (N("l1"), "num"), (N("l3"), "any"), (N("mixed"), "any"), (N("mixed"), "any"), (N("rows"), "rows"),
                          (N("rows"), "rows"), (N("l2"), "num"), (N("d1"), "any"), (N("u1"), "any"), (N("z"), "any"), (N("i1"), "any"),
-                         (J.List([C(1), C(2), C(5)]), "num"), (J.Call(N("range"), [C(4)]), "num"), (N("n0"), "any")])
+                         (J.List([C(1), C(2), C(5)]), "num"), (J.Call(N("range"), [C(4)]), "num"), (N("n0"), "any"),
+                         # iterators of other kinds: reversed(...), the generators of unique / batch
+                         (J.Filter(N("l1"), "reverse"), "num"), (J.Filter(N("mixed"), "reverse"), "any"),
+                         (J.Filter(J.Call(N("range"), [C(3)]), "reverse"), "num"),
+                         (J.Filter(J.List([C(1), C(1.0), C(True), C(2), C(0.5), C(2)]), "unique"), "num"),
+                         (J.Filter(N("l1"), "unique"), "num")])
 
     def test_args(self, kind):
         r = self.rnd
@@ -938,7 +943,9 @@ class LazyGen:
         if k < 0.65: return J.Filter(e, "join", r.choice([[], [C("|")], [N("s1")], [N("m1")]]))
         if k < 0.8: return J.Filter(e, "first")
         if k < 0.9: return J.Filter(e, "sum")
-        if k < 0.95: return J.Filter(J.Filter(e, "list"), r.choice(["length", "last", "sort", "max"]))
+        if k < 0.93: return J.Filter(J.Filter(e, "list"), r.choice(["length", "last", "sort", "max"]))
+        if k < 0.97:
+            return J.Filter(J.Filter(J.Filter(e, "list"), "batch", r.choice([[C(2)], [C(2), C("f<")], [C(1)], [C(3), C(0)]])), r.choice(["list", "first", "list"]))
         return J.Cond(e, C("T"), C("F"))            # an iterator object is true, whatever it would yield
 
     def loop(self):
